@@ -612,6 +612,15 @@ class PopulationBalanceModel:
         indAbove = self._netFlux[1:]*dt > psd
         self._netFlux[1:][indAbove] = psd[indAbove] / dt
 
+        #A bin can lose particles through both faces (negative flux on its left face, positive flux on its right face)
+        #Scale the two outgoing fluxes so the total number of particles leaving is at most the number in the bin
+        outflow = (np.maximum(-self._netFlux[:-1], 0) + np.maximum(self._netFlux[1:], 0)) * dt
+        indTotal = outflow > psd
+        scale = np.ones(len(psd))
+        scale[indTotal] = psd[indTotal] / outflow[indTotal]
+        self._netFlux[:-1] = np.where(self._netFlux[:-1] < 0, self._netFlux[:-1] * scale, self._netFlux[:-1])
+        self._netFlux[1:] = np.where(self._netFlux[1:] > 0, self._netFlux[1:] * scale, self._netFlux[1:])
+
         dXdt = (self._netFlux[:-1] - self._netFlux[1:])
 
         #Find size class for nucleated particles
